@@ -42,7 +42,21 @@ Definition conn0 := Conn 0 [] None false [] [].
 
 Record notif := Notif { nf_sub : bool; nf_ssid : list N; nf_chan : bytes; nf_who : N; nf_user : bytes }.
 
-Record broker := B { b_trie : trie; b_conns : list (option conn); b_store : store; b_seq : N;
+(* the subscription index is abstract: the broker only subscribes, unsubscribes and looks up.
+   Model: the trie of Model.Trie.  Specification (Spec.BrokerSpec): the plain set of
+   (filter, subscriber) pairs with the matching relation of Spec.PubSub. *)
+Record ixops (I : Type) := IxOps {
+  ix_empty : I;
+  ix_subscribe : list N -> N -> I -> I;
+  ix_unsubscribe : list N -> N -> I -> I;
+  ix_lookup : bool -> list N -> I -> list N;
+}.
+Arguments ix_empty {I}. Arguments ix_subscribe {I}. Arguments ix_unsubscribe {I}. Arguments ix_lookup {I}.
+
+Section generic.
+Context {I : Type} (X : ixops I).
+
+Record broker := B { b_trie : I; b_conns : list (option conn); b_store : store; b_seq : N;
                      b_queue : list notif; b_out : list (N * pkt) }.
 
 Record env := Env { e_mqtt : bool; e_contract : N; e_sign : N; e_now : Z; e_keys : list (bytes * key); e_retain : N }.
@@ -123,7 +137,7 @@ Definition subscribe_ev (b : broker) (i : N) (c : conn) (ssid : list N) (ch : by
   else
     let c' := Conn (cn_sub c) (cn_user c) (cn_will c) (cn_connected c) (cn_ctrs c ++ [Ctr ssid ch]) (cn_links c) in
     let b1 := with_conn b i c' in
-    let b2 := B (subscribe ssid (cn_sub c) (b_trie b1)) (b_conns b1) (b_store b1) (b_seq b1) (b_queue b1) (b_out b1) in
+    let b2 := B (ix_subscribe X ssid (cn_sub c) (b_trie b1)) (b_conns b1) (b_store b1) (b_seq b1) (b_queue b1) (b_out b1) in
     enqueue b2 (Notif true (0 :: presenceW :: ssid) ch i (cn_user c)).
 
 (* pubsub.Unsubscribe(conn, ev) *)
@@ -133,8 +147,8 @@ Definition unsubscribe_ev (mqtt : bool) (b : broker) (i : N) (c : conn) (ssid : 
     let c' := Conn (cn_sub c) (cn_user c) (cn_will c) (cn_connected c)
                    (filter (fun k => negb (ssid_eqb (k_ssid k) ssid)) (cn_ctrs c)) (cn_links c) in
     let b1 := with_conn b i c' in
-    let present := mem (cn_sub c) (Trie.lookup mqtt ssid (b_trie b1) []) in
-    let t := if present then unsubscribe ssid (cn_sub c) (b_trie b1) else b_trie b1 in
+    let present := mem (cn_sub c) (ix_lookup X mqtt ssid (b_trie b1)) in
+    let t := if present then ix_unsubscribe X ssid (cn_sub c) (b_trie b1) else b_trie b1 in
     let b2 := B t (b_conns b1) (b_store b1) (b_seq b1) (b_queue b1) (b_out b1) in
     enqueue b2 (Notif false (0 :: presenceW :: ssid) ch i (cn_user c)).
 
@@ -146,7 +160,7 @@ Definition deliver (mqtt : bool) (b : broker) (ssid : list N) (ch payload : byte
                              match conn_of_sub (b_conns acc) s 0 with Some i => emit acc i (PMsg ch payload) | None => acc end
                | None => match conn_of_sub (b_conns acc) s 0 with Some i => emit acc i (PMsg ch payload) | None => acc end
                end)
-            (Trie.lookup mqtt ssid (b_trie b) []) b.
+            (ix_lookup X mqtt ssid (b_trie b)) b.
 
 (* a new message id: only its order matters to the model *)
 Definition fresh_id (e : env) (b : broker) (ssid : list N) : bytes :=
@@ -202,7 +216,7 @@ Definition presence_who (mqtt : bool) (b : broker) (ssid : list N) : list (N * b
   flat_map (fun s => match conn_of_sub (b_conns b) s 0 with
                      | Some i => match get_conn (b_conns b) (N.to_nat i) with Some c => [(i, cn_user c)] | None => [] end
                      | None => [] end)
-           (Trie.lookup mqtt ssid (b_trie b) []).
+           (ix_lookup X mqtt ssid (b_trie b)).
 
 Inductive ereq :=
 | ELink (name key channel : bytes) (subscribe : bool)
@@ -319,7 +333,7 @@ Definition dispatch (e : env) (b : broker) : broker :=
                                       | Some i => emit acc2 i (PPresence (nf_sub n) (nf_chan n) (nf_who n) (nf_user n))
                                       | None => acc2
                                       end)
-                                   (Trie.lookup (e_mqtt e) (nf_ssid n) (b_trie acc) []) acc)
+                                   (ix_lookup X (e_mqtt e) (nf_ssid n) (b_trie acc)) acc)
                       (b_queue b) b in
   B (b_trie b1) (b_conns b1) (b_store b1) (b_seq b1) [] (b_out b1).
 
@@ -368,4 +382,9 @@ Definition step (e : env) (b : broker) (i : N) (o : op) : broker :=
     end in
   dispatch e r.
 
-Definition broker0 (n : N) : broker := B trie0 (repeat (Some conn0) (N.to_nat n)) [] 0 [] [].
+Definition broker0 (n : N) : broker := B (ix_empty X) (repeat (Some conn0) (N.to_nat n)) [] 0 [] [].
+End generic.
+
+(* the model: the index is the trie; Trie.Lookup without share-group picks *)
+Definition trie_ix : ixops trie :=
+  IxOps trie trie0 subscribe unsubscribe (fun mqtt q t => Trie.lookup mqtt q t []).
